@@ -11,6 +11,12 @@
 //	        file writer does), put in a map store and read through encryption/store.New.
 //	        Logged: the returned length and whether span and payload came back.
 //
+//	file    a file of `full` chunks plus `last` bytes is written through the encrypted pipeline of
+//	        pkg/file/pipeline (assembled as builder.newEncryptionPipeline does, with a recording
+//	        writer in front of the encryption writer), then every chunk the writer stored is read
+//	        back through the decrypting store.  Logged per chunk: what the writer handed over
+//	        before encryption (span, payload length) and what the reader returned.
+//
 // No expected values here: EncryptTrace.tla judges the log.
 package main
 
@@ -21,10 +27,18 @@ import (
 	"errors"
 	"fmt"
 	"math/rand"
+	"runtime"
+	"sync"
 
 	"github.com/gauss-project/aurorafs/pkg/boson"
 	"github.com/gauss-project/aurorafs/pkg/encryption"
 	encstore "github.com/gauss-project/aurorafs/pkg/encryption/store"
+	"github.com/gauss-project/aurorafs/pkg/file/pipeline"
+	pbmt "github.com/gauss-project/aurorafs/pkg/file/pipeline/bmt"
+	penc "github.com/gauss-project/aurorafs/pkg/file/pipeline/encryption"
+	"github.com/gauss-project/aurorafs/pkg/file/pipeline/feeder"
+	"github.com/gauss-project/aurorafs/pkg/file/pipeline/hashtrie"
+	pstore "github.com/gauss-project/aurorafs/pkg/file/pipeline/store"
 	"github.com/gauss-project/aurorafs/pkg/storage"
 	"golang.org/x/crypto/sha3"
 
@@ -41,6 +55,110 @@ func (m mapStore) Get(_ context.Context, _ storage.ModeGet, addr boson.Address) 
 	return nil, storage.ErrNotFound
 }
 
+func (m mapStore) Put(_ context.Context, _ storage.ModePut, chs ...boson.Chunk) ([]bool, error) {
+	exist := make([]bool, len(chs))
+	for i, ch := range chs {
+		_, exist[i] = m[string(ch.Address().Bytes())]
+		m[string(ch.Address().Bytes())] = ch
+	}
+	return exist, nil
+}
+
+// recorder sits in front of the encryption writer: it sees every chunk (span || payload) the
+// writer is about to encrypt and store, and afterwards the reference and key it was stored under.
+type recorded struct {
+	plain    []byte // span || payload, before encryption
+	ref, key []byte
+}
+type recorder struct {
+	next pipeline.ChainWriter
+	log  *[]recorded
+}
+
+func (r recorder) ChainWrite(p *pipeline.PipeWriteArgs) error {
+	plain := append([]byte{}, p.Data...)
+	if err := r.next.ChainWrite(p); err != nil {
+		return err
+	}
+	*r.log = append(*r.log, recorded{plain: plain, ref: append([]byte{}, p.Ref...), key: append([]byte{}, p.Key...)})
+	return nil
+}
+func (r recorder) Sum() ([]byte, error) { return r.next.Sum() }
+
+// spanDigits writes a span s >= 1 as (s-1) div ChunkSize in base 4096 (least significant digit first) and
+// ((s-1) mod ChunkSize) + 1; s = 0 is all zeros.  (TLC integers are 32-bit: a representation, not a computation.)
+func spanDigits(s uint64) ([]int, int) {
+	if s == 0 {
+		return []int{0, 0, 0, 0}, 0
+	}
+	m, t := (s-1)/boson.ChunkSize, int((s-1)%boson.ChunkSize)+1
+	md := make([]int, 4)
+	for i := 0; i < 3; i++ {
+		md[i] = int(m % 4096)
+		m /= 4096
+	}
+	md[3] = int(m)
+	return md, t
+}
+
+func runFile(sc kit.Scenario, out *recOut) error {
+	r := kit.Rng(int64(sc.Scn))
+	out.Begin(sc.Scn, kit.Ev{"kind": "file"})
+	ctx := context.Background()
+	for _, op := range sc.Ops {
+		if kit.Str(op, "op") != "upload" {
+			return fmt.Errorf("unknown op %v", op["op"])
+		}
+		full, last := kit.Int(op, "full"), kit.Int(op, "last")
+		st := mapStore{}
+		var log []recorded
+		short := func() pipeline.ChainWriter {
+			lsw := pstore.NewStoreWriter(ctx, st, storage.ModePutUpload, nil)
+			return recorder{penc.NewEncryptionWriter(encryption.NewChunkEncrypter(), pbmt.NewBmtWriter(lsw)), &log}
+		}
+		tw := hashtrie.NewHashTrieWriter(boson.ChunkSize, boson.Branches/2, boson.HashSize+encryption.KeyLength, short)
+		lsw := pstore.NewStoreWriter(ctx, st, storage.ModePutUpload, tw)
+		top := recorder{penc.NewEncryptionWriter(encryption.NewChunkEncrypter(), pbmt.NewBmtWriter(lsw)), &log}
+		w := feeder.NewChunkFeederWriter(boson.ChunkSize, top)
+		data := randBytes(r, full*boson.ChunkSize+last)
+		_, werr := w.Write(data)
+		var root []byte
+		var serr error
+		if werr == nil {
+			root, serr = w.Sum()
+		}
+		out.Emit(kit.Ev{"op": "upload", "full": full, "last": last, "werr": errs(werr), "err": errs(serr),
+			"rootLen": len(root), "chunks": len(log)})
+		for _, c := range log {
+			span := binary.LittleEndian.Uint64(c.plain[:8])
+			md, t := spanDigits(span)
+			ref := append(append([]byte{}, c.ref...), c.key...)
+			var ch boson.Chunk
+			var gerr error
+			panicked, msg := kit.Guard(func() {
+				ch, gerr = encstore.New(st).Get(ctx, storage.ModeGetRequest, boson.NewAddress(ref))
+			})
+			ev := kit.Ev{"op": "chunk", "md": md, "t": t, "span": fmt.Sprint(span), "storedLen": len(c.plain) - 8,
+				"refLen": len(ref), "panicked": panicked, "panicText": msg, "err": errs(gerr),
+				"gotLen": 0, "spanEcho": false, "prefix": false}
+			if !panicked && gerr == nil {
+				d := ch.Data()
+				ev["gotLen"] = len(d)
+				ev["spanEcho"] = len(d) >= 8 && bytes.Equal(d[:8], c.plain[:8])
+				if len(d) >= 8 {
+					n := len(d) - 8
+					if n > len(c.plain)-8 {
+						n = len(c.plain) - 8
+					}
+					ev["prefix"] = bytes.Equal(d[8:8+n], c.plain[8:8+n])
+				}
+			}
+			out.Emit(ev)
+		}
+	}
+	return nil
+}
+
 func randBytes(r *rand.Rand, n int) []byte {
 	b := make([]byte, n)
 	r.Read(b)
@@ -54,7 +172,7 @@ func errs(e error) string {
 	return e.Error()
 }
 
-func runCipher(sc kit.Scenario, out *kit.Out) error {
+func runCipher(sc kit.Scenario, out *recOut) error {
 	r := kit.Rng(int64(sc.Scn))
 	pad := kit.Int(sc.Par, "pad")
 	keyNo := kit.Int(sc.Par, "key")
@@ -95,7 +213,11 @@ func runCipher(sc kit.Scenario, out *kit.Out) error {
 			}
 		case "dec":
 			if !have {
-				return fmt.Errorf("scenario %d: dec before any successful enc", sc.Scn)
+				// the model had Encrypt succeed, the code refused: nothing to decrypt (the judge
+				// has already charged the enc event; its model follows the observation)
+				ev["inLen"], ev["err"], ev["errText"], ev["outLen"], ev["prefix"] = 0, true, "no ciphertext", 0, false
+				out.Emit(ev)
+				continue
 			}
 			var d []byte
 			var err error
@@ -117,7 +239,7 @@ func runCipher(sc kit.Scenario, out *kit.Out) error {
 	return nil
 }
 
-func runGet(sc kit.Scenario, out *kit.Out) error {
+func runGet(sc kit.Scenario, out *recOut) error {
 	r := kit.Rng(int64(sc.Scn))
 	out.Begin(sc.Scn, kit.Ev{"kind": "get"})
 	for _, op := range sc.Ops {
@@ -146,7 +268,10 @@ func runGet(sc kit.Scenario, out *kit.Out) error {
 		// what the encrypted writer does with a chunk (pkg/file/pipeline/encryption)
 		key, encSpan, encData, err := encryption.NewChunkEncrypter().EncryptChunk(chunkData)
 		if err != nil {
-			return fmt.Errorf("scenario %d: EncryptChunk: %w", sc.Scn, err)
+			// the writer's own encryption step refused a chunk: logged, not a driver problem
+			out.Emit(kit.Ev{"op": "get", "md": md, "t": t, "plen": plen, "span": fmt.Sprint(span), "chunkLen": 0,
+				"panicked": false, "panicText": "", "err": "EncryptChunk: " + err.Error(), "gotLen": 0, "spanEcho": false, "prefix": false})
+			continue
 		}
 		stored := append(append([]byte{}, encSpan...), encData...)
 		addr := randBytes(r, boson.HashSize)
@@ -179,20 +304,52 @@ func runGet(sc kit.Scenario, out *kit.Out) error {
 	return nil
 }
 
+// recOut collects the events of one scenario (scenarios run side by side; kit.Out is sequential).
+type recOut struct {
+	begin kit.Ev
+	evs   []kit.Ev
+}
+
+func (r *recOut) Begin(_ int, fields kit.Ev) { r.begin = fields }
+func (r *recOut) Emit(e kit.Ev)              { r.evs = append(r.evs, e) }
+
 func main() {
 	kit.Main(func(scs []kit.Scenario, out *kit.Out) error {
-		for _, sc := range scs {
-			var err error
-			switch kit.Str(sc.Par, "kind") {
-			case "cipher":
-				err = runCipher(sc, out)
-			case "get":
-				err = runGet(sc, out)
-			default:
-				err = fmt.Errorf("scenario %d: unknown kind %v", sc.Scn, sc.Par["kind"])
+		recs := make([]recOut, len(scs))
+		errsOf := make([]error, len(scs))
+		next := make(chan int)
+		var wg sync.WaitGroup
+		for w := 0; w < runtime.NumCPU(); w++ {
+			wg.Add(1)
+			go func() {
+				defer wg.Done()
+				for i := range next {
+					sc := scs[i]
+					switch kit.Str(sc.Par, "kind") {
+					case "cipher":
+						errsOf[i] = runCipher(sc, &recs[i])
+					case "get":
+						errsOf[i] = runGet(sc, &recs[i])
+					case "file":
+						errsOf[i] = runFile(sc, &recs[i])
+					default:
+						errsOf[i] = fmt.Errorf("scenario %d: unknown kind %v", sc.Scn, sc.Par["kind"])
+					}
+				}
+			}()
+		}
+		for i := range scs {
+			next <- i
+		}
+		close(next)
+		wg.Wait()
+		for i := range scs {
+			if errsOf[i] != nil {
+				return errsOf[i]
 			}
-			if err != nil {
-				return err
+			out.Begin(scs[i].Scn, recs[i].begin)
+			for _, e := range recs[i].evs {
+				out.Emit(e)
 			}
 		}
 		return nil
